@@ -38,13 +38,27 @@ def make_index(kind, n):
     raise KeyError(kind)
 
 
+COLUMN_KINDS = ("default", "str", "revint", "offint")
+
+
+def column_labels(cols, p):
+    """default: 0..p-1; str: 'va', 'vb', ...; revint: the integers p-1..0 (integer labels that are valid POSITIONS of other
+    columns); offint: 1..p (integer labels, one of which is not a position at all)."""
+    if cols == "default":
+        return list(range(p))
+    if cols == "revint":
+        return list(range(p - 1, -1, -1))
+    if cols == "offint":
+        return list(range(1, p + 1))
+    return [f"v{chr(97 + j)}" for j in range(p)]
+
+
 def frame(X, kind="range", cols="default"):
     X = np.asarray(X, dtype=float)
     if X.ndim == 1:
         X = X.reshape(-1, 1)
     n, p = X.shape
-    columns = list(range(p)) if cols == "default" else [f"v{chr(97 + j)}" for j in range(p)]
-    return pd.DataFrame(X, index=make_index(kind, n), columns=columns)
+    return pd.DataFrame(X, index=make_index(kind, n), columns=column_labels(cols, p))
 
 
 # ---------------------------------------------------------------------------------
